@@ -14,6 +14,7 @@ compared with a reference written from the property text:
 The reference keeps, per cache file, the set of states the property allows; a run of the real pipeline must agree with
 the reference run in at least one allowed state (values yielded, values seen by every instrumented element, pulls from
 the source, file existence/content after complete runs)."""
+import copy
 import itertools
 import json
 import os
@@ -805,7 +806,79 @@ def scope_random(R, count, N, L):
     run_scope(R, gen())
 
 
+class _Stamp(object):
+    """downstream element that changes every value IN PLACE (context counter, data list) and passes it on"""
+
+    def run(self, flow):
+        for val in flow:
+            data, ctx = val
+            ctx["seen"] = ctx.get("seen", 0) + 1
+            ctx.setdefault("marks", []).append(len(data))
+            data.append("stamped")
+            yield val
+
+
+def downstream_mutation_case(n, hoist, take):
+    """"stores it" = stores the flow as it ARRIVED: what a later element does in place to a value after the Cache handed
+    it on must not end up in the cache.  take: None = consume everything, k = the consumer stops after k values (then
+    nothing may be stored at all).  Returns None or a description."""
+    path = os.path.join(workdir(), "mut_%d_%s_%s.pkl" % (n, hoist, take))
+    if os.path.exists(path):
+        os.remove(path)
+    made = [([i, "v"], {"i": i, "d": {"k": [i]}}) for i in range(n)]
+    arrived = copy.deepcopy(made)
+    seq = Sequence(Cache(path), _Stamp())
+    it = seq.run(iter(made))
+    out1 = list(it) if take is None else [next(it) for _ in range(min(take, n))]
+    if take is not None:
+        if hasattr(it, "close"):
+            it.close()
+        if take < n + 1 and os.path.exists(path) and take <= n - 1:
+            return "consumer stopped after %d of %d values but a cache file exists: %r" % (take, n, read_raw(path))
+        return None
+    stored = read_raw(path) if os.path.exists(path) else "<no file>"
+    if stored != arrived:
+        return "first run over %d values with an in-place mutator after the Cache: the cache holds %r, the flow that arrived was %r" % (
+            n, stored, arrived)
+    seq2 = Sequence(Cache(path), _Stamp())
+    if hoist:
+        seq2 = Cache.alter_sequence(seq2)
+        out2 = list(seq2()) if hasattr(seq2, "__call__") and not hasattr(seq2, "run") else list(seq2.run(iter([])))
+    else:
+        out2 = list(seq2.run(iter([])))
+    if out2 != out1:
+        return "replay through the same pipeline gives %r, the first run gave %r" % (out2, out1)
+    return None
+
+
+def replay_downstream_mutation(n, hoist, take):
+    try:
+        return downstream_mutation_case(n, hoist, take) is not None
+    finally:
+        cleanup()
+
+
 def body(R):
+    R.scope("Cache followed by an element that changes values in place",
+            "flows of 0..1200 (data, context) pairs (lists and nested dictionaries) x replay in the Sequence / hoisted by "
+            "Cache.alter_sequence x consumer takes everything or stops after 0, 1, n-1 values: the cache holds the flow as it "
+            "arrived, the replay equals the first run", True)
+    try:
+        for n in (0, 1, 2, 3, 7, 1200):
+            for hoist in (False, True):
+                for take in [None] + sorted({0, 1, max(n - 1, 0)}):
+                    if take is not None and (hoist or take > n):
+                        continue
+                    R.case(n > 0, {"n": n, "hoist": hoist, "take": take} if n == 2 else None)
+                    try:
+                        bad = downstream_mutation_case(n, hoist, take)
+                    except Exception as e:
+                        bad = "raised %s: %s" % (type(e).__name__, e)
+                    if bad:
+                        R.fail("Cache/stored-flow-differs-from-arrived-flow/downstream-mutation", bad, {"n": n, "hoist": hoist, "take": take},
+                               {"fn": "replay_downstream_mutation", "args": [n, hoist, take]})
+    finally:
+        cleanup()
     try:
         all_forms = FORMS_ANY + FORMS_LONE
         if R.thorough:
@@ -829,7 +902,7 @@ def body(R):
 
 
 if __name__ == "__main__":
-    R = Run("C18", {"replay_history": replay_history})
+    R = Run("C18", {"replay_history": replay_history, "replay_downstream_mutation": replay_downstream_mutation})
     sys.exit(R.main(body, "histories of runs of the real pipelines on a temporary directory against the reference state machine of the "
                           "property; a case is one history (1..8 runs, each compared: values, per-element logs, source pulls, cache files); "
                           "distinct by construction of the enumeration"))
